@@ -8,18 +8,27 @@ def run(rep: Report, repo: Repo, tier: str) -> None:
     rep.unit("src/cminx/__init__.py", "src/cminx/rstwriter.py", "src/cminx/documenter.py")
     rep.assume("open(path, 'w') creates or truncates exactly `path`; os.makedirs creates only `path` and its parents",
                "os.path.join discards earlier components when a later one is absolute (hence the no-ABS-component rule)")
-    fsrules.rule_write_census(rep, repo, "C18-R1")
+    with rep.isolated():
+        fsrules.rule_write_census(rep, repo, "C18-R1")
     rep.floor("C18-R1", 10, "write-site obligations (guard + rooting)")
-    fsrules.rule_no_delete(rep, repo, "C18-R2")
-    pathterms.rule_stdout_branch(rep, repo, "C18-R3")
-    pathterms.rule_page_path(rep, repo, "C18-R4")
+    with rep.isolated():
+        fsrules.rule_no_delete(rep, repo, "C18-R2")
+    with rep.isolated():
+        pathterms.rule_stdout_branch(rep, repo, "C18-R3")
+    with rep.isolated():
+        pathterms.rule_page_path(rep, repo, "C18-R4")
     # "inside that directory": the directory the user asked for, i.e. a relative -o resolved against the cwd of the run
     from .c16 import rule_output_dir_resolution
-    rule_output_dir_resolution(rep, repo, "C18-R5")
+    with rep.isolated():
+        rule_output_dir_resolution(rep, repo, "C18-R5")
     # "the files of a directory in sorted name order" (stdout mode prints pages in production order)
-    fsrules.rule_no_nondeterminism(rep, repo, "C18-R6")
+    with rep.isolated():
+        fsrules.rule_no_nondeterminism(rep, repo, "C18-R6")
     # "the directory the user asked for": -o outranks an output.directory found in a settings file
     from .c16 import rule_source_order
-    rule_source_order(rep, repo, "C18-R7")
-    fsrules.rule_mode_independence(rep, repo, "C18-R8")
-    fsrules.rule_index_before_pages(rep, repo, "C18-R9")
+    with rep.isolated():
+        rule_source_order(rep, repo, "C18-R7")
+    with rep.isolated():
+        fsrules.rule_mode_independence(rep, repo, "C18-R8")
+    with rep.isolated():
+        fsrules.rule_index_before_pages(rep, repo, "C18-R9")
